@@ -12,6 +12,9 @@ Python counterparts (the tree with the repairs F-C14a, F-C14b, F-C14d, F-C14e ap
 * `neutralize_variable` / `variables.get_neutralized_variable`         ↦ `neutralizeVar`
 * `annualize_variable` / `variables.get_annualized_variable`           ↦ `annualizeVar`
 * `Reform.modify_parameters` / in-place `Parameter.update` on a copy   ↦ `modifyParams`
+* `TaxBenefitSystem.load_extension` (variables added, parameters merged in place)  ↦ `loadExtension`
+* `tools.test_runner._get_tax_benefit_system` (clone, reforms, extensions, cache)  ↦ `testRunnerDerive`,
+                                                                         `Op.testRunner`, `State.memo`
 * `Variable.__init__` (`set`, `set_formulas`), `Variable.clone`, `Variable.get_formula`
                                                                        ↦ `construct`, `getFormula`
 * `TaxBenefitSystem.get_variable`, `CoreEntity.get_variable`           ↦ `resolve`, `resolveVia`
